@@ -18,6 +18,18 @@ ENV = dict(os.environ)
 ENV.update({'CARGO_NET_OFFLINE': 'true', 'CARGO_TARGET_DIR': TARGET,
             'RUSTFLAGS': '--cfg %s' % GUARD, 'CARGO_TERM_COLOR': 'never'})
 
+# Coverage measurement of the implementation by the correspondence inputs (tools/coverage.py): with VERIF_COVERAGE=1 the
+# harness and the solstat binary are built with -C instrument-coverage into separate target directories and every run
+# of them leaves a raw profile under .cache/cov/.  Never set by a registered check.
+COVERAGE = os.environ.get('VERIF_COVERAGE') == '1'
+COVDIR = os.path.join(CACHE, 'cov')
+if COVERAGE:
+    TARGET = os.path.join(CACHE, 'target-cov')
+    ENV['CARGO_TARGET_DIR'] = TARGET
+    ENV['RUSTFLAGS'] += ' -C instrument-coverage'
+    os.makedirs(COVDIR, exist_ok=True)
+    os.environ['LLVM_PROFILE_FILE'] = ENV['LLVM_PROFILE_FILE'] = os.path.join(COVDIR, '%p-%m.profraw')
+
 T0 = time.time()
 
 
@@ -124,12 +136,13 @@ def build_solstat_bin():
     """the real solstat binary, built from /repo's working tree into our target dir"""
     with Lock('cargo'):
         env = dict(ENV)
-        env['CARGO_TARGET_DIR'] = os.path.join(CACHE, 'target-bin')
+        tdir = os.path.join(CACHE, 'target-bin-cov' if COVERAGE else 'target-bin')
+        env['CARGO_TARGET_DIR'] = tdir
         rc, out = sh(['cargo', 'build', '--offline', '--bin', 'solstat', '--manifest-path',
                       os.path.join(REPO, 'Cargo.toml')], env=env, timeout=1800)
         if rc != 0:
             raise BuildError('solstat build failed:\n' + out[-4000:])
-        return os.path.join(CACHE, 'target-bin', 'debug', 'solstat')
+        return os.path.join(tdir, 'debug', 'solstat')
 
 
 def regen():
